@@ -67,7 +67,7 @@ theorem sendTestReq_quiet (env : Env) : Sat Quiet (sendTestReq env) := by
   quiet_side
 
 theorem disconnect_quiet (env : Env) (d : Nat) (l : Option String) : Sat Quiet (disconnect env d l) := by
-  unfold disconnect
+  unfold disconnect swallow
   repeat' (first | with_reducible exact sendMsg_quiet _ _ | with_reducible exact stateSet_quiet _ | sat_step | split)
   quiet_side
 
